@@ -466,14 +466,14 @@ def gen_fill(rng, edges, nan_ok=True):
             v = int(v)
         o["v"] = v
         if wmode == "match":
-            o["w"] = rng.choice([0.5, 2.0, 1.5, 0.25, 3, -1.0, 1.0])
+            o["w"] = rng.choice([0.5, 2.0, 1.5, 0.25, 3, -1.0, 1.0, 0.0, 0])
         elif wmode == "bad":
             o["w"] = rng.choice([[1.0], [1.0, 2.0], "nan"])
     else:
         k = rng.choice([0, 1, 2, 3, 4, 5, 8])
         o["v"] = [gen_value(rng, edges) for _ in range(k)]
         if wmode == "match":
-            o["w"] = [rng.choice([0.5, 2.0, 1.5, 0.25, 1.0, 3.0, -0.5]) for _ in range(k)]
+            o["w"] = [rng.choice([0.5, 2.0, 1.5, 0.25, 1.0, 3.0, -0.5, 0.0, 0.0]) for _ in range(k)]
             if nan_ok and k and rng.random() < 0.08:
                 o["w"][rng.randrange(k)] = "nan"
         elif wmode == "bad":
